@@ -87,6 +87,7 @@ def regenerate(ctx):
     return ['KawinV/Gen/C01MassBalance.lean'] if ch else []
 
 
+RUN_ERRORS = []
 SITES = ['bulk', 'dislocations', 'grain boundaries', 'grain edges', 'grain corners']
 
 
@@ -314,9 +315,14 @@ def trace_runs(ctx):
     """returns list of (tag, model, log) for real runs"""
     out = []
     def go(tag, model, times, solver, cap):
+        import traceback
         log = kwnruns.instrument(model)
-        for t in times:
-            kwnruns.run(model, t, solver, max_steps=cap)
+        try:
+            for t in times:
+                kwnruns.run(model, t, solver, max_steps=cap)
+        except Exception:
+            # a crash of one real run must not hide the other runs; the calls logged so far are still checked
+            RUN_ERRORS.append((tag, traceback.format_exc()))
         out.append((tag, model, log))
     T = 723.15 - ctx.rng.uniform(0, 5)
     x0 = 4e-3 * ctx.rng.uniform(1.0, 1.1)
@@ -361,8 +367,15 @@ def corr(ctx, oracle_only=False, nsynth=None):
                 'one populated phase; distinct = fingerprint of (tag, step, outputs)')
     recs = []
     for _ in range(nsynth or ctx.n(400, 6000)):
-        recs.append(synth_record(ctx.rng))
-    for tag, model, log in trace_runs(ctx):
+        ok, r = vlib.guarded(res, 'synthetic-mass-balance', {'note': 'synthetic state of this run (same VERIF_SEED reproduces it)'}, synth_record, ctx.rng)
+        if ok:
+            recs.append(r)
+    ok, runs_ = vlib.guarded(res, 'real-run', {'note': 'real Al-Zr / Ni-Cr-Al trajectories of this tier'}, trace_runs, ctx)
+    for tag, tb in RUN_ERRORS:
+        if vlib.in_repo_traceback(tb):
+            res.violate('raises:real-run', 'a real run crashed inside the implementation', {'run': tag, 'traceback': tb[-1500:]})
+    del RUN_ERRORS[:]
+    for tag, model, log in (runs_ if ok else []):
         for r in log.mb:
             r['tag'] = tag
         check_history(tag, model, log, res)
@@ -374,8 +387,8 @@ def corr(ctx, oracle_only=False, nsynth=None):
     if ctx.driver_ok and not oracle_only:
         gl, gr = [], []
         for _ in range(ctx.n(60, 600)):
-            r = gen_record(ctx.rng)
-            if r is None:
+            ok, r = vlib.guarded(res, 'generated-path-state', {}, gen_record, ctx.rng)
+            if not ok or r is None:
                 continue
             gl.append('mb.gen %s %s %s %s %s %s %s' % (enc_list(np.concatenate(r['x'])), enc_list(np.concatenate(r['size'])),
                       enc_list(np.concatenate([a.ravel() for a in r['xbeta']])), f2b(1.0), enc_list([1.0 / v for v in r['volRatio']]),
@@ -405,6 +418,7 @@ def corr(ctx, oracle_only=False, nsynth=None):
             for r in recs:
                 if brief(r) == v['case'] or (isinstance(v['case'], dict) and v['case'].get('t') == r['t'] and v['case'].get('tag') == r['tag'] and v['case'].get('n') == r['n']):
                     v['case'] = full_case(r); break
+    vlib.finish_guard(res)
     return res
 
 
